@@ -69,10 +69,11 @@ GensOf(list, r) == {list[i].g : i \in {j \in 1..Len(list) : list[j].r = r}}
 (*         mem_wal_to_merge) | "tappend" (plain Append)                    *)
 (*   removed: set of ids (removal is by id);  guard: ids whose owner the   *)
 (*   API call compared with expected_owner_id;  chown: ids whose owner it  *)
-(*   changes;  rv: read version                                            *)
+(*   changes;  rv: read version;  op: the API call that built it           *)
 (***************************************************************************)
+NoCall == [k |-> "none", r |-> "", g |-> 0, exp |-> "", own |-> "", eid |-> 0]
 NoTxn == [kind |-> "none", added |-> <<>>, updated |-> <<>>, removed |-> {}, toMerge |-> <<>>,
-          guard |-> {}, chown |-> {}, rv |-> 0]
+          guard |-> {}, chown |-> {}, rv |-> 0, op |-> NoCall]
 Writes(t) == Ids(t.added) \cup Ids(t.updated) \cup Ids(t.toMerge)
 
 Pre(c) == [pre |-> c, txn |-> NoTxn]
@@ -227,6 +228,8 @@ OwnerChangesSerialiseAt(vs, k) ==
 
 InvNames == <<"EachGenerationOnce", "Consecutive", "OnlyLatestOpen", "StateMonotone", "TrimmedNeverReappears",
               "NoTwoCommitsOnSameGeneration", "OwnerChangesSerialise">>
+\* invariants of one version (a violation persists while the list stays as it is) vs. invariants of one commit
+StateInvs == {"EachGenerationOnce", "Consecutive", "OnlyLatestOpen", "TrimmedNeverReappears"}
 Holds(name, vs, k) ==
   CASE name = "EachGenerationOnce" -> EachGenerationOnceAt(vs, k)
     [] name = "Consecutive" -> ConsecutiveAt(vs, k)
@@ -236,4 +239,37 @@ Holds(name, vs, k) ==
     [] name = "NoTwoCommitsOnSameGeneration" -> NoTwoCommitsOnSameGenerationAt(vs, k)
     [] name = "OwnerChangesSerialise" -> OwnerChangesSerialiseAt(vs, k)
 Violated(vs, k) == {InvNames[i] : i \in {j \in 1..Len(InvNames) : ~Holds(InvNames[j], vs, k)}}
+\* what version k newly breaks: every broken commit invariant, and the version invariants that held at k-1
+Fresh(vs, k) ==
+  LET V == Violated(vs, k) IN
+  (V \ StateInvs) \cup {nm \in V \cap StateInvs : k = 1 \/ Holds(nm, vs, k - 1)}
+
+(***************************************************************************)
+(* One call against a history: prediction, and the deviations that were    *)
+(* necessary for it (finding signatures)                                   *)
+(***************************************************************************)
+CallOf(o) == [k |-> o.k, r |-> o.r, g |-> o.g, exp |-> o.exp, own |-> o.own, eid |-> o.eid]
+\* vs: the history when the call commits; rv: the version the caller has read
+Predict(D, vs, rv, op) ==
+  LET b == BuildOp(D, vs[rv], op)
+      t == [b.txn EXCEPT !.rv = rv, !.op = op]
+      res == IF b.pre # "ok" THEN b.pre ELSE Outcome(D, t, vs)
+  IN [res |-> res, t |-> t,
+      ver |-> IF res = "ok" THEN NewVersion(vs[Len(vs)], t, Len(vs) + 1) ELSE vs[Len(vs)]]
+\* a deviation is necessary for a step when the as-built prediction changes if it alone is switched off
+\* (a call through an up-to-date handle meets no conflict rule; only trim's own construction deviates)
+NecSeq(vs, rv, op) ==
+  IF rv = Len(vs) /\ op.k # "trim" THEN <<>>
+  ELSE LET pa == Predict(AsBuilt, vs, rv, op) IN
+       SelectSeq(AsBuiltSeq, LAMBDA d : LET p == Predict(AsBuilt \ {d}, vs, rv, op)
+                                        IN p.res # pa.res \/ p.ver.list # pa.ver.list)
+\* Finding signatures of a whole history: <<invariant, deviations>> for every newly broken invariant of
+\* every version; a violating commit that needed no deviation itself inherits those of the closest earlier
+\* commit that did (e.g. the advance that restarts at generation 0 after a trim removed the newest one)
+SigsOf(vs) ==
+  LET n == Len(vs)
+      necF == [k \in 2..n |-> IF vs[k].txn.kind = "none" THEN <<>>
+                              ELSE NecSeq(SubSeq(vs, 1, k - 1), vs[k].txn.rv, vs[k].txn.op)]
+      devF == [k \in 2..n |-> LET J == {j \in 2..k : necF[j] # <<>>} IN IF J = {} THEN <<>> ELSE necF[Max(J)]]
+  IN UNION {{<<nm, devF[k]>> : nm \in Fresh(vs, k)} : k \in 2..n}
 =============================================================================
